@@ -17,6 +17,10 @@ func (self *Transformer) stmtCanControlLoop(node ast.AnalyzedStatement) bool {
 		return self.exprCanControlLoop(node.Expression)
 	case ast.ReturnStatementKind:
 		node := node.(ast.AnalyzedReturnStatement)
+		if node.ReturnValue == nil {
+			// a plain `return;`
+			return false
+		}
 		return self.exprCanControlLoop(node.ReturnValue)
 	case ast.BreakStatementKind, ast.ContinueStatementKind:
 		// These statements are what we are looking for, so return `true`
@@ -150,6 +154,11 @@ func (self *Transformer) exprCanControlLoop(node ast.AnalyzedExpression) bool {
 			if self.exprCanControlLoop(arm.Action) {
 				return true
 			}
+		}
+
+		// the default arm is kept apart from the arms with literals
+		if node.DefaultArmAction != nil {
+			return self.exprCanControlLoop(*node.DefaultArmAction)
 		}
 
 		return false
